@@ -220,7 +220,7 @@ func majShapeCase(idx int) (*genReq, []int, string, string) {
 
 func c01Random(c *caseCtx) {
 	method := methods[c.idx%len(methods)]
-	o := genOpts{method: method, nBiases: (c.idx / len(methods)) % 4, maxAlt: 7, minAlt: 1, minCrit: 1, maxCrit: 4}
+	o := genOpts{method: method, nBiases: (c.idx / len(methods)) % 4, maxAlt: 7, minAlt: 1, minCrit: 1, maxCrit: 4, dupChosen: true, blankId: true, caseCrit: true}
 	if c.rng.Intn(3) != 0 {
 		o.profile = profTies
 	}
